@@ -133,6 +133,7 @@ inductive BinOut
   | val (v : Val)
   | err (atRight : Bool) (msg : String)     -- runtime error; position: op token or right operand
   | unmodelled (why : String)
+  deriving DecidableEq, Repr
 
 /-- the value-level part of `evalBinaryExpr` for arithmetic, comparison and regex operators,
     applied to the operands' values (src/evaluator.go:601-700) -/
